@@ -332,7 +332,7 @@ func (n *SimNet) route(ep *endpoint, seq uint64, addr string, buf []byte) {
 			continue
 		}
 		delay := n.plan.MinDelay
-		if n.plan.MaxDelay > n.plan.MinDelay {
+		if n.plan.MaxDelay > n.plan.MinDelay && (act || n.plan.Until == 0) {
 			delay += r.i64n(n.plan.MaxDelay - n.plan.MinDelay)
 		}
 		if act && n.plan.HeavyTail > 0 && r.chance(n.plan.HeavyTail) {
